@@ -37,11 +37,30 @@ def run_case(ctx, case, api=None):
     expected = AC.expected_regions(case, data, verdicts)
     api = api or APIS[(case["pcm_seed"] >> 4) % len(APIS)]
     kw = AC.split_kwargs(case, long_names=bool(case["pcm_seed"] & 2))
+    bps_ = case["width"] * case["channels"]
+    total_ = len(data) // bps_
+    if api in ("function", "raw_file", "raw_file_lazy", "wav_file", "wav_file_lazy") and (case["pcm_seed"] >> 12) % 3 == 0 and total_ > 1:
+        # max_read=t: the input IS its first round(t*rate) samples - usually ending inside an analysis window, often inside an event
+        from ..gen import audio as A_
+
+        n_ = 1 + (case["pcm_seed"] >> 14) % total_
+        t_ = n_ / case["rate"]
+        if round(t_ * case["rate"]) == n_:
+            v_ = A_.model_verdicts(data[: n_ * bps_], case["width"], case["channels"], case["block"], case["thr"], case["uc"])
+            if v_ is not None:
+                data, verdicts = data[: n_ * bps_], v_
+                full_data = built[0]
+                expected = AC.expected_regions(case, data, verdicts)
+                kw["mr" if case["pcm_seed"] & 8 else "max_read"] = t_
+                ctx.count("cases_with_max_read")
+                if n_ % case["block"]:
+                    ctx.count("cases_with_max_read_inside_a_window")
+    src_data = built[0] if "mr" in kw or "max_read" in kw else data
     try:
         if api == "function":
-            regions = list(auditok.split(data, **kw, **AC.audio_kwargs(case, long_names=bool(case["pcm_seed"] & 4))))
+            regions = list(auditok.split(src_data, **kw, **AC.audio_kwargs(case, long_names=bool(case["pcm_seed"] & 4))))
         elif api == "method":
-            reg = AudioRegion(data, case["rate"], case["width"], case["channels"])
+            reg = AudioRegion(src_data, case["rate"], case["width"], case["channels"])
             regions = list(reg.split(**kw))
         elif api in ("raw_file", "raw_file_lazy", "wav_file", "wav_file_lazy"):
             import os
@@ -53,14 +72,14 @@ def run_case(ctx, case, api=None):
             try:
                 if api.startswith("raw"):
                     with open(path, "wb") as fp:
-                        fp.write(data)
+                        fp.write(src_data)
                     regions = list(auditok.split(path, large_file=api.endswith("lazy"), **kw, **AC.audio_kwargs(case)))
                 else:
                     with wave.open(path, "wb") as fp:
                         fp.setframerate(case["rate"])
                         fp.setsampwidth(case["width"])
                         fp.setnchannels(case["channels"])
-                        fp.writeframes(data)
+                        fp.writeframes(src_data)
                     regions = list(auditok.split(path, large_file=api.endswith("lazy"), **kw))
             finally:
                 os.unlink(path)
@@ -176,7 +195,7 @@ def probs_nested(ctx, case, regions, kw):
     r = regions[len(regions) // 2]
     sub = dict(case)
     try:
-        inner = list(r.split(**kw))
+        inner = list(r.split(**{k: v for k, v in kw.items() if k not in ("max_read", "mr")}))  # the region method refuses max_read
     except Exception as exc:
         ctx.violation("nested-split-raises:" + type(exc).__name__, {"case": AC.case_json(case), "exception": repr(exc)[:200]})
         return False
@@ -256,6 +275,6 @@ def replay(ctx, case):
 def inconclusive(merged, tier):
     c = merged["counters"]
     return [f"monitor never observed {k}" for k in
-            ("regions_observed", "regions_expected", "api_function", "api_method", "api_method_on_region_with_start", "api_function_on_region_with_start", "huge_window_cases", "api_raw_file_lazy", "api_wav_file_lazy", "api_used_buffer_source", "api_used_reader", "api_stdin_pipe", "api_recorder_second_pass", "api_region_with_conflicting_audio_kwargs", "api_split_and_plot", "cases_threshold_zero", "nested_splits", "width_1", "width_2", "width_4",
+            ("regions_observed", "regions_expected", "api_function", "api_method", "api_method_on_region_with_start", "api_function_on_region_with_start", "huge_window_cases", "cases_with_max_read_inside_a_window", "api_raw_file_lazy", "api_wav_file_lazy", "api_used_buffer_source", "api_used_reader", "api_stdin_pipe", "api_recorder_second_pass", "api_region_with_conflicting_audio_kwargs", "api_split_and_plot", "cases_threshold_zero", "nested_splits", "width_1", "width_2", "width_4",
              "channels_1", "channels_2", "channels_3", "cases_with_partial_last_window", "regions_ending_in_partial_window",
              "cases_nonintegral_window", "repo_tests_split_regions_checked") if c.get(k, 0) == 0]
